@@ -22,6 +22,8 @@ SUBTREES = [
     "src/host/trxcon",
     "src/host/osmocon",
     "src/target/firmware/comm",
+    "src/target/firmware/calypso",
+    "src/target/firmware/board",
     "src/target/firmware/layer1",
     "src/target/firmware/include",
     "src/shared/libosmocore/include",
